@@ -49,6 +49,15 @@ def fields(kind, variant):
     if kind == 'cubic':
         return [{(0, 0): q(5 + k), (1, 0): q(1 + v), (0, 1): q(2 + k), (2, 0): q(-1), (0, 2): q(1), (1, 1): q(1 + k),
                  (3, 0): q(1), (0, 3): q(-1), (2, 1): q(1)} for k in range(4)]
+    if kind == 'zero':
+        # a no-data / zero-filled area: every field exactly 0.0 at every node
+        return [{(0, 0): q(0)} for k in range(4)]
+    if kind == 'zeroline':
+        # c_k (r - 3)(c - 2): all four fields vanish together along one node row and one node column
+        return [{(1, 1): q(8 + k + v), (1, 0): q(-2 * (8 + k + v)), (0, 1): q(-3 * (8 + k + v)), (0, 0): q(6 * (8 + k + v))} for k in range(4)]
+    if kind == 'tiny':
+        # shifts below the 6-decimal rounding of the transformed coordinates (1/2^26 arc-seconds and multiples)
+        return [{(0, 0): F(1 + k, 2 ** 26), (1, 0): F(1, 2 ** 27)} for k in range(4)]
     raise ValueError(kind)
 
 
@@ -89,6 +98,10 @@ def layouts(tier):
                                                          sg('B', 'NONE', -90000, -500000, 5, 4, 600, 300, 'linear', 3)]})
     out.append({'id': 'pad-junk', 'pad': b'\xde\xad\xbe\xef', 'subs': [sg('PAR', 'NONE', -108000, -540000, 6, 7, 600, 600, 'biquadratic', 0),
                                                                        sg('CHD', 'PAR', -108000 + 1200, -540000 + 1800, 11, 6, 120, 120, 'biquadratic', 2)]})
+    # zero-filled sub-grid next to one whose four fields vanish together on a node row / column; shifts far below 1e-6"
+    out.append({'id': 'zeros', 'subs': [sg('ZER', 'NONE', 36000 + F(1, 2), 360000 + F(1, 4), 5, 6, 150, 150, 'zero', 0),
+                                         sg('LIN', 'NONE', 72000, 400000, 7, 6, 300, 300, 'zeroline', 1)]})
+    out.append({'id': 'tiny-shifts', 'subs': [sg('TNY', 'NONE', -108000, -540000, 4, 5, 150, 150, 'tiny', 0)]})
     # the child sub-grid listed BEFORE its parent in the file
     out.append({'id': 'child-first', 'subs': [sg('CHD', 'PAR', -108000 + 1200, -540000 + 1800, 11, 6, 120, 120, 'biquadratic', 2),
                                                sg('PAR', 'NONE', -108000, -540000, 6, 7, 600, 600, 'biquadratic', 0)]})
